@@ -52,7 +52,9 @@ def _signal_case(c):
             if th is not None and c.get('route') in (0, 1):
                 # the same settings through a Bycycle object with a history: a first fit with a LARGER min_n_cycles in the thresholds, then the
                 # requested value is written into the stored dictionary and the object is fitted again on the same array
-                dfo = implutil.object_route(sig, c['fs'], tuple(c['f_range']), c['center'], 'amp', bk, th, None, True)
+                # (route 1: only the VALUES inside the stored thresholds differ between the two fits, nothing is rebound and the array is the same object)
+                dfo = implutil.object_route(sig, c['fs'], tuple(c['f_range']), c['center'], 'amp', bk, th, None, True,
+                                            **(dict(variant=2, which=0) if c.get('route') == 1 and 'min_n_cycles' in th else {}))
                 if not (dfo['is_burst'].equals(df['is_burst']) and dfo['burst_fraction'].equals(df['burst_fraction'])):
                     return dict(err='ObjectRouteDiffers', msg='Bycycle object with a history gives other burst fractions / labels than compute_features')
     except Exception as e:
@@ -126,10 +128,10 @@ def generate(ctx):
         th = {'burst_fraction_threshold': float(rng.choice([0, 0.25, 0.5, 0.8, 1.0, 1.0]))}
         route = int(rng.integers(4))
         if route == 3:      # both given, far apart so that the choice is visible in the labels
-            lo_, hi_ = int(rng.choice([1, 2])), int(rng.choice([5, 7, 10]))
+            lo_, hi_ = int(rng.choice([0, 1, 2])), int(rng.choice([5, 7, 10]))      # (0 is a valid count: it must not be mistaken for 'not given')
             th['min_n_cycles'], bk['min_n_cycles'] = (lo_, hi_) if rng.random() < 0.5 else (hi_, lo_)
-        elif route == 1: th['min_n_cycles'] = int(rng.choice([1, 2, 5, 8]))
-        elif route == 2: bk['min_n_cycles'] = int(rng.choice([1, 2, 5, 8]))
+        elif route == 1: th['min_n_cycles'] = int(rng.choice([0, 1, 2, 5, 8]))
+        elif route == 2: bk['min_n_cycles'] = int(rng.choice([0, 1, 2, 5, 8]))
         if rng.random() < 0.3:
             bk['min_burst_duration'] = float(rng.choice([0.0, 0.0, 0.05, 0.2, 0.5]))
         bkv = bk if (bk or rng.random() < 0.7) else None
